@@ -25,6 +25,7 @@ import (
 	"go/token"
 	"go/types"
 	"regexp"
+	"sort"
 	"strings"
 )
 
@@ -571,4 +572,26 @@ func (fc *fnCtx) k03wThread(text string) string {
 		}
 		return m + " " + strings.Join(as, " ")
 	})
+}
+
+// k03wOrderState: the loop state ordered by Lean type (lists, integers, booleans, others), declaration order within a type:
+// swapping the declarations of two locals of different types does not change the generated definitions
+func (fc *fnCtx) k03wOrderState(state []string) []string {
+	if !k03wOn() || fc.m == nil {
+		return state
+	}
+	rank := func(n string) int {
+		switch lt := fc.m.ltype[n]; {
+		case strings.HasPrefix(lt, "List"):
+			return 0
+		case lt == "Int":
+			return 1
+		case lt == "Bool":
+			return 2
+		}
+		return 3
+	}
+	out := append([]string{}, state...)
+	sort.SliceStable(out, func(i, j int) bool { return rank(out[i]) < rank(out[j]) })
+	return out
 }
